@@ -162,7 +162,16 @@ class StmtMixin:
         kt = self.sv(k, node).t
         vt = self.store_val(v, node)
         if kind == 'dict':
-            self.heap.put_m(r, self.map_set_simpl(self.heap.m(r), kt, vt))
+            m = self.heap.m(r)
+            h = sym.simp(m.has(kt))
+            if not (z3.is_true(h) or z3.is_false(h)) and not self.run.no_fork:
+                # fork on "key already present": keeps the stored arrays free of ite (usable as quantifier triggers)
+                if self.run.decide(h, 'dict-key-present'):
+                    self.heap.put_m(r, MapT(m.len, m.keyat, m.pos, z3.Store(m.val, kt, vt)))
+                else:
+                    self.heap.put_m(r, MapT(m.len + 1, z3.Store(m.keyat, m.len, kt), z3.Store(m.pos, kt, m.len), z3.Store(m.val, kt, vt)))
+                return
+            self.heap.put_m(r, self.map_set_simpl(m, kt, vt))
         elif kind == 'list':
             l = self.heap.l(r)
             i = self.as_int(SV(kt))
@@ -268,11 +277,15 @@ class StmtMixin:
                 self.heap.a.clear(); self.heap.a.update(snap[1])
                 n0 = len(run.pc)
                 run.pc.append(guard)
+                run.solver.push()
+                run.solver.add(guard)
                 try:
                     self.exec_block(body, fr)
                 except (NoForkAbort, Stop, Unsupported):
+                    run.solver.pop()
                     restore()
                     return False
+                run.solver.pop()
                 extra = run.pc[n0 + 1:]
                 del run.pc[n0:]
                 results.append((guard, dict(fr.loc), dict(self.heap.a), extra))
@@ -461,7 +474,7 @@ class StmtMixin:
                 return ('sym', n, lambda i: SV(sym.mk_int(lo_s + i)), None)
             if k in ('items', 'keys', 'values'):
                 m = it.a
-                n = sym.simp(m.len)
+                n = self.run.concretize(m.len)
                 def elem(i, m=m, k=k):
                     key = z3.Select(m.keyat, i)
                     if k == 'keys':
@@ -633,6 +646,13 @@ class StmtMixin:
                 arr = self.heap.arr(f)
                 hv = run.fresh('hh_' + f.replace('$', 'S'), sym.heap_sort(f))
                 for r in objs:
+                    arr = z3.Store(arr, r, z3.Select(hv, r))
+                self.heap.a[f] = arr
+        if ls.mod_at is not None:
+            for f, refs in ls.mod_at(c, LoopCtx(z3.IntVal(0), n, entry_loc, entry_heap, entry_loc, entry_heap, snap)):
+                arr = self.heap.arr(f)
+                hv = run.fresh('hh_' + f.replace('$', 'S'), sym.heap_sort(f))
+                for r in refs:
                     arr = z3.Store(arr, r, z3.Select(hv, r))
                 self.heap.a[f] = arr
         i = run.fresh('it', sym.I)
